@@ -7,6 +7,7 @@
 //! op lines
 //!   flt <framehex> <dffilter> <acfilter>   record = TimedMessage{ message: Message::try_from(frame).ok() }
 //!   und <framehex> <dffilter> <acfilter>   record with `message: None` (a frame that failed to decode)
+//! frame: hex, `-` for the empty frame.
 //! filter syntax: `-` absent, `[]` empty list, otherwise comma-separated items (aircraft: hex).
 //! answer: `keep` / `drop` / `panic`.
 use crate::common::*;
@@ -95,7 +96,8 @@ fn want_keep(df: &DfF, ac: &AcF, shown_df: &str, shown_icao: u32) -> bool {
 
 fn flt(out: &mut Out, frame: &[u8], df: &DfF, ac: &AcF, undecoded: bool) {
     let kind = if undecoded { "und" } else { "flt" };
-    let op = format!("{kind} {} {} {}", hex(frame), show_df(df), show_ac(ac));
+    let fh = if frame.is_empty() { "-".to_string() } else { hex(frame) };
+    let op = format!("{kind} {fh} {} {}", show_df(df), show_ac(ac));
     let message = if undecoded { None } else { guarded(|| Message::try_from(frame).ok()).flatten() };
     let decoded = message.is_some();
     let tm = TimedMessage { timestamp: 1.0, frame: frame.to_vec(), message, metadata: vec![], decode_time: None };
@@ -164,7 +166,7 @@ fn flt(out: &mut Out, frame: &[u8], df: &DfF, ac: &AcF, undecoded: bool) {
 pub fn one(out: &mut Out, line: &str) {
     let p: Vec<&str> = line.split_whitespace().collect();
     match p.as_slice() {
-        [k @ ("flt" | "und"), h, d, a] => match (unhex(h), parse_ac(a)) {
+        [k @ ("flt" | "und"), h, d, a] => match (if *h == "-" { Some(vec![]) } else { unhex(h) }, parse_ac(a)) {
             (Some(b), Some(ac)) => flt(out, &b, &parse_df(d), &ac, *k == "und"),
             _ => out.notes.push(format!("bad replay line: {line}")),
         },
